@@ -457,6 +457,17 @@ func (m *MdnsManager) processMdnsEntry(elements map[string]string, name, host st
 		if address.To4() == nil && address.IsLinkLocalUnicast() {
 			continue
 		}
+		// ignore addresses that are reported more than once
+		isDuplicate := false
+		for _, item := range newAddresses {
+			if item.String() == address.String() {
+				isDuplicate = true
+				break
+			}
+		}
+		if isDuplicate {
+			continue
+		}
 		newAddresses = append(newAddresses, address)
 	}
 	addresses = newAddresses
